@@ -258,6 +258,21 @@ def grammar(rng, relay, keys, auth):
         ev = odd_signed(relay, keys[2], field, value)
         if ev is not None:
             out.append(("hostile-signed", ["EVENT", ev]))
+    # validly signed events that pass the validators and then make the *storage* step fail (the SQL transaction / the LMDB
+    # pre-check raises): a deletion whose reference is not an id, tags without a value where the backend indexes one, tag
+    # values that are arrays / objects, integers beyond 64 bits.  Several of them in a row: whatever a failed insert holds
+    # (a slot, a lock, a transaction) must have been given back, or the relay stops taking events from anybody
+    from aionostr.event import Event
+    for kw in [dict(kind=5, tags=[["e", "zz"]]), dict(kind=5, tags=[["e"]]), dict(kind=5, tags=[["e", ""]]), dict(kind=1, tags=[["expiration"]]),
+               dict(kind=1, tags=[["delegation"]]), dict(kind=2 ** 63, tags=[]), dict(kind=1, tags=[["t", ["a", "b"]]]),
+               dict(kind=1, tags=[["t", {"a": 1}]]), dict(kind=1, tags=[["n", 2 ** 70]]), dict(kind=30000, tags=[["d", ["x"]]]),
+               dict(kind=5, tags=[["e", "zz"], ["e", 5]]), dict(kind=1, tags=[["expiration"], ["t"]])]:
+        try:
+            ev = Event(pubkey=keys[2].public_key.hex(), content="storage-hostile", created_at=T0 + 78, **kw)
+            ev.sign(keys[2].hex())
+            out.append(("hostile-signed", ["EVENT", ev.to_json_object()]))
+        except Exception:
+            pass
     deep = "[" * 3000 + "]" * 3000
     raws = ["", " ", "{", "[", "nul", "[\"REQ\"", "\x00", "\ufffe", "[\"REQ\",\"s\",{\"kinds\":[1]}] trailing", "NaN", "[\"REQ\",\"s\",{\"since\":NaN}]",
             "[\"REQ\",\"s\",{\"since\":1e400}]", "[\"REQ\",\"s\",{\"limit\":1e2}]", "[\"REQ\",\"\\ud800\",{\"kinds\":[1]}]", deep,
@@ -310,6 +325,7 @@ def robustness(report, drv, backend, auth, rng, tier):
         gate_lines = []
         victim = Conn(relay)
         seq = 0
+        wedged = False
         classes = Counter()
         for label, m in items:
             if victim.done:
@@ -356,6 +372,7 @@ def robustness(report, drv, backend, auth, rng, tier):
                 cn.send(["REQ", "probe", {"kinds": [99]}])
                 if not any(isinstance(f, list) and f[0] == "EOSE" and f[1] == "probe" for f in cn.frames(n1)):
                     report.property_failure("%s: after the frame the %s connection no longer answers a REQ" % (backend, who), payload, None)
+                    wedged = True
                     break
                 cn.send(["CLOSE", "probe"])
                 if who == "same":
@@ -366,11 +383,17 @@ def robustness(report, drv, backend, auth, rng, tier):
                 ok = good_conn.send_event(pub)
                 got_live = [f[1] for f in watcher.frames(nw) if isinstance(f, list) and f[0] == "EVENT" and f[2]["id"] == pub["id"]]
                 if ok is not True:
-                    report.property_failure("%s: after the frame a fresh valid EVENT on another connection was refused" % backend, payload, None)
+                    report.property_failure("%s: after the frame a fresh valid EVENT on another connection was %s"
+                                            % (backend, "refused" if ok is False else "not answered at all"), payload, None)
+                    wedged = wedged or ok is None
                 elif sorted(got_live) != ["all", "live"]:
                     report.property_failure("%s: after the frame a fresh event accepted on another connection was pushed to %r instead of "
                                             "the watcher's two matching subscriptions" % (backend, got_live), payload, None)
             report.case((backend, auth, label, text[:300], len(text)), nontrivial=cls != "silent", sample={"label": label, "answer": cls})
+            if wedged:
+                # the relay has stopped answering: the violation is recorded; every further frame would only wait for its timeout
+                report.count("configurations_abandoned_after_the_relay_stopped_answering")
+                break
         # ---- endings ------------------------------------------------------------------------------------
         for cn in (victim, good_conn, watcher):
             if not cn.done:
